@@ -200,13 +200,17 @@ func funcKeyOf(fn *types.Func) (pkgPath, key string) {
 }
 
 // findContract looks up the contract of a function or interface method.
-func (p *Prog) findContract(fn *types.Func) *FuncSpec {
+func (p *Prog) findContract(fn *types.Func, callerPkg string) *FuncSpec {
 	pkgPath, key := funcKeyOf(fn)
 	if fs, ok := p.contracts.Funcs[pkgPath+"."+key]; ok {
 		return fs
 	}
-	// external: ext.<pkgname>.<key>
+	// external: an assumed contract stated in the caller's package takes precedence (the same
+	// external function, e.g. heap.Push, is specified per use), then ext.<pkgname>.<key>
 	if fn.Pkg() != nil {
+		if fs, ok := p.contracts.Funcs["ext@"+callerPkg+"."+fn.Pkg().Name()+"."+key]; ok {
+			return fs
+		}
 		if fs, ok := p.contracts.Funcs["ext."+fn.Pkg().Name()+"."+key]; ok {
 			return fs
 		}
@@ -221,7 +225,7 @@ func (v *V) callStatic(e *Env, fn *types.Func, recv *Val, call *ast.CallExpr) []
 	if r, ok := v.knownExternal(e, fn, recv, call); ok {
 		return r
 	}
-	fs := v.prog.findContract(fn)
+	fs := v.prog.findContract(fn, v.pkg.path)
 	if fs != nil && !(fs.Inline) {
 		args := v.evalArgs(e, sig, call)
 		return v.applyContract(e, fs, fn, recv, args, call)
@@ -230,6 +234,16 @@ func (v *V) callStatic(e *Env, fn *types.Func, recv *Val, call *ast.CallExpr) []
 	if fi := v.prog.funcInfoFor(fn); fi != nil && fi.body != nil {
 		args := v.evalArgs(e, sig, call)
 		return v.inlineCall(e, fi, recv, args, call)
+	}
+	if v.dry > 0 {
+		// modification analysis of a loop body: an unmodelled call (typically on a branch that the
+		// real run prunes as infeasible) counts as "may modify everything"
+		v.dryUnknown = true
+		var out []Val
+		for i := 0; i < sig.Results().Len(); i++ {
+			out = append(out, v.freshVal(e.st, "ret_unknown", sig.Results().At(i).Type()))
+		}
+		return out
 	}
 	panic(unsupported("call to %s: no contract and no body to inline", full))
 }
@@ -696,11 +710,38 @@ func (v *V) applySpecFun(e *Env, sf *SpecFun, call *ast.CallExpr) Val {
 		// uninterpreted
 		var sorts, terms []string
 		for _, a := range args {
+			if sl, ok := a.T.Underlying().(*types.Slice); ok {
+				// a function of the slice's contents (the element sequence), not of its header:
+				// buffers are reused, so the same header denotes different sequences over time
+				comp, sort := v.memComp(sl.Elem())
+				base, off, ln, _ := v.sliceParts(a.S)
+				row := e.st.heapRead(v.d, comp, sort, base)
+				sorts = append(sorts, fmt.Sprintf("(Array %s %s)", v.d.idxSort(), v.d.sortOf(sl.Elem())), v.d.idxSort(), v.d.idxSort())
+				terms = append(terms, row, off, ln)
+				continue
+			}
 			sorts = append(sorts, v.d.sortOf(a.T))
 			terms = append(terms, a.S)
 		}
 		name := "uf_" + sf.Name
 		v.d.declareFun(name, sorts, v.d.sortOf(rt))
+		if v.ufRange == nil {
+			v.ufRange = map[string]bool{}
+		}
+		if !v.ufRange[name] && len(terms) > 0 && v.d.mode == ModeInt {
+			// the result has its Go type's range also where the application occurs under a quantifier
+			v.ufRange[name] = true
+			var bs, as []string
+			for k, s := range sorts {
+				bs = append(bs, fmt.Sprintf("(ufa%d %s)", k, s))
+				as = append(as, fmt.Sprintf("ufa%d", k))
+			}
+			app := fmt.Sprintf("(%s %s)", name, strings.Join(as, " "))
+			if inv := v.typeInvNoAlloc(Val{T: rt, S: app}); len(inv) > 0 {
+				v.d.usesQuant = true
+				v.axioms = append(v.axioms, fmt.Sprintf("(forall (%s) (! %s :pattern (%s)))", strings.Join(bs, " "), and(inv...), app))
+			}
+		}
 		if len(terms) == 0 {
 			return Val{T: rt, S: name}
 		}
@@ -976,6 +1017,61 @@ func (v *V) knownExternal(e *Env, fn *types.Func, recv *Val, call *ast.CallExpr)
 		c := v.d.fresh("beq", "Bool")
 		e.st.define(eq(c, r))
 		return []Val{boolVal(c)}, true
+	case "sort.Search":
+		// sort.Search(n, f): for a monotone predicate f (obligation) the result is the least index in
+		// [0,n] at which f holds (n if none). f must be a function literal with a single return.
+		if e.spec {
+			break
+		}
+		n := v.coerce(e, arg(0), tInt)
+		fv := arg(1)
+		ci := v.closures[fv.S]
+		if ci == nil || len(ci.lit.Body.List) != 1 {
+			panic(unsupported("sort.Search with a predicate that is not a single-return function literal"))
+		}
+		rs, ok := ci.lit.Body.List[0].(*ast.ReturnStmt)
+		if !ok || len(rs.Results) != 1 || len(ci.lit.Type.Params.List) != 1 || len(ci.lit.Type.Params.List[0].Names) != 1 {
+			panic(unsupported("sort.Search with a predicate that is not a single-return function literal"))
+		}
+		pobj, _ := ci.info.Defs[ci.lit.Type.Params.List[0].Names[0]].(*types.Var)
+		if pobj == nil {
+			panic(unsupported("sort.Search predicate parameter"))
+		}
+		predAt := func(idx string, quant bool) string {
+			pe := &Env{v: v, st: e.st, info: ci.info, pkg: ci.pkg, bound: map[string]Val{}}
+			if quant {
+				pe.spec = true
+				pe.inQuant = 1
+			}
+			saved, had := e.st.vars[pobj]
+			e.st.vars[pobj] = Val{T: pobj.Type(), S: idx}
+			r := pe.eval(rs.Results[0])
+			if had {
+				e.st.vars[pobj] = saved
+			} else {
+				delete(e.st.vars, pobj)
+			}
+			return r.S
+		}
+		// the body is executed for indices in [0,n): its own obligations (bounds) must hold there
+		xi := v.d.fresh("searchidx", v.d.idxSort())
+		probe := e.st.clone()
+		probe.assume(and(v.ile(v.d.idxLit(0), xi), v.ilt(xi, n.S)))
+		pe := &Env{v: v, st: probe, info: ci.info, pkg: ci.pkg, bound: map[string]Val{}}
+		probe.vars[pobj] = Val{T: pobj.Type(), S: xi}
+		pe.eval(rs.Results[0])
+		v.d.usesQuant = true
+		qi, qj := fmt.Sprintf("si_qi%d", v.nextQ()), fmt.Sprintf("sj_qi%d", v.nextQ())
+		mono := fmt.Sprintf("(forall ((%s %s)) (forall ((%s %s)) (=> (and %s %s %s %s) %s)))", qi, v.d.idxSort(), qj, v.d.idxSort(),
+			v.ile(v.d.idxLit(0), qi), v.ilt(qi, qj), v.ilt(qj, n.S), predAt(qi, true), predAt(qj, true))
+		v.oblige(e, "assert", mono, call.Pos(), "sort.Search predicate is monotone (false..false,true..true) on [0,n)")
+		r := v.d.fresh("search", v.d.idxSort())
+		e.st.define(and(v.ile(v.d.idxLit(0), r), v.ile(r, n.S)))
+		qk := fmt.Sprintf("sk_qi%d", v.nextQ())
+		e.st.define(fmt.Sprintf("(forall ((%s %s)) (=> (and %s %s) (not %s)))", qk, v.d.idxSort(), v.ile(v.d.idxLit(0), qk), v.ilt(qk, r), predAt(qk, true)))
+		e.st.define(implies(v.ilt(r, n.S), predAt(r, true)))
+		v.trust("sort.Search(n, f) returns the least index in [0,n] at which the monotone predicate f holds")
+		return []Val{{T: tInt, S: r}}, true
 	case "bytes.HasPrefix":
 		a, b := arg(0), arg(1)
 		a, b = v.nameVal(e, a, "a"), v.nameVal(e, b, "b")
